@@ -597,6 +597,10 @@ fn exec_inner(op: &str, a: &Value, st: &mut State) -> Value {
                 }
             }
         }
+        // observations of the reference implementations (recorded by lib/refs.py) are passed through unchanged:
+        // the trace specification judges them against the same definitions as tz-rs (C10)
+        "ref" => ok(getv(a, "obs").clone()),
+        "refmk" => ok(json!({ "set": getv(a, "set").clone() })),
         _ => json!({ "arg": format!("unknown op {op}") }),
     }
 }
